@@ -10,7 +10,16 @@ import OVM.Refine.CacheEraseLemmas
      `eraseFace_sHfsOfHe`, `eraseEdge_sOut` (old scan, renumbered), `eraseCell_sCellsOfHf`,
   and that the fix-up loops of the C++ (cache-guided or linear) renumber EVERY stored definition
      (`eraseFace_cells`, `eraseEdge_faces`, `eraseVertex_edges` / `shiftVertsBU_eq_map`).
-  The wrappers for `delete_*_core`, the closure versions and garbage collection are in CacheGC.lean.
+  The wrappers for `delete_*_core` (`wf_delete*Core_shift`) and garbage collection are in CacheGC.lean, the closure
+  versions `delete_cell/face/edge/vertex` in CacheImmediate.lean, `Closed` for deferred deletion in CacheClosed.lean,
+  the step/history assembly in CacheAssembly.lean.
+  Remarks on the hypotheses.  (1) "nothing of the level above is flagged": the fix-up loops visit only live users
+  (`cells_begin()` skips deleted cells; the cache-guided variants see only linked = live users), so a flagged user
+  would keep stale handles and `RangeInv` (which speaks about ALL stored definitions) would break; in the real code
+  this state is unreachable (flags exist only in deferred mode; `collect_garbage` sweeps cells, faces, edges,
+  vertices in this order).  (2) "no stored definition uses the entity" is stronger than `eraseFace`/`eraseEdge`
+  need for `WF` alone (`fixHalfList` would drop the half-entities from the users, changing their shape); for
+  `eraseVertex` it is necessary (cc:965-978 renames an endpoint `h` to `h-1`: TEST at the end of CacheGC.lean).
 -/
 namespace OVM
 namespace Kernel
